@@ -7,22 +7,34 @@ from vlib import Check, tlc, run_bin, workdir, write_ndjson, read_ndjson, log
 META = {
     "property_id": "C15",
     "level": "model_checking",
-    "technique": "TLA+ spec (CMap: declarative Lookup/Text vs. interval maps with RangeInclusiveMap::insert semantics) model-checked "
+    "technique": "TLA+ spec (CMap: declarative Lookup/Text, legal spellings and font dictionaries vs. interval maps with "
+                 "RangeInclusiveMap::insert semantics, the grammar's per-gap combinators and get_font_encoding's match) model-checked "
                  "by TLC; every TLC-enumerated definition sequence is rendered as CMap program text by the spec and replayed into "
                  "lopdf (get_font_encoding + decode_text); recorded lopdf decodings of random tables are judged by Trace_CMap",
     "text": "TLC enumerates every sequence of up to 3 bfchar/bfrange definitions (one-unit, multi-unit and array targets, every "
             "overlap / adjacency / order pattern, equal values on touching ranges) over small code spaces and checks that the "
-            "interval-map model of ToUnicodeCMap refines 'the last covering definition wins' - as the code is (since the fix: "
-            "commit that stores the base of every definition) it does; with the repaired defects seeded back into the model it "
-            "has exactly the four former counter-example classes. Each enumerated CMap is emitted as program text with the text the "
-            "declarative layer defines, stored as the ToUnicode stream of a font and decoded by lopdf code by code and as one "
-            "string. Seeded random tables (1-4 byte codes incl. 00000000/FFFFFFFF, astral and multi-unit targets, arrays, up to "
-            "250 entries, random sectioning, hex case and white-space incl. the PostScript-legal array spellings) are decoded "
-            "by lopdf and judged by TLC with the declarative layer only.",
-    "note": "Trusted: TLC, CMap!Lookup/Text as a reading of ISO 32000-1 9.10.3, the harness's renderer (its output is what the "
-            "trace spec judges: the logged definition list is the rendered one). Exhaustive only within the model bounds "
-            "(<=3 definitions, <=4 codes per length, lengths 1-3); beyond that sampled. The BOM sniffing of the final UTF-16 "
-            "decoder is not part of the impl-shaped layer (found by trace validation).",
+            "interval-map model of ToUnicodeCMap refines 'the last covering definition wins'. A second dimension of the same "
+            "model is the spelling of the CMap program and the font dictionary that carries it: the Producer of the spec writes "
+            "the program as tokens with classified gaps, and every state carries one style - a separator (none where a delimiter "
+            "allows it, blank, tab, LF, CR, CRLF, FF, NUL, comment, mixtures) at every gap of one class (prolog, CMap dictionary, "
+            "codespace section, count/operator/operands/entries/arrays/section end, trailer, end of stream), white space at one "
+            "position inside the hexadecimal strings, a section with zero entries, further CMap dictionary entries, or one of 17 "
+            "/Encoding forms next to /ToUnicode (absent, Identity-H/V, the base encodings, predefined CMap names, dictionaries "
+            "with Differences, an embedded CMap stream). The impl-shaped layer carries lopdf's combinator for every gap and the "
+            "match of get_font_encoding; as repaired it takes every legal style, as the code is it refuses exactly the listed "
+            "classes. Each enumerated case is emitted as program text with the text the declarative layer defines, stored as the "
+            "ToUnicode stream of such a font and decoded by lopdf code by code and as one string. Seeded random tables (1-4 byte "
+            "codes incl. 00000000/FFFFFFFF, astral and multi-unit targets, arrays, up to 250 entries, random sectioning, hex case, "
+            "tolerated white-space, and in one record of two one random style) are decoded by lopdf and judged by TLC with the "
+            "declarative layer only.",
+    "note": "Trusted: TLC, CMap!Lookup/Text as a reading of ISO 32000-1 9.10.3, white space as ISO 32000-1 7.2.2 / PLRM 3.2, the "
+            "harness's renderer (its output is what the trace spec judges: the logged definition list is the rendered one). "
+            "Exhaustive only within the model bounds (<=3 definitions, <=4 codes per length, lengths 1-3; styles with <=2 "
+            "definitions); beyond that sampled. Outside the asserted domain (not generated): usecmap, a CMap dictionary without "
+            "any of /CIDSystemInfo /CMapName /CMapType, 1-byte, empty or odd-byte-count targets, hexadecimal strings with an odd "
+            "number of digits, CMaps that map codes outside their codespace ranges, white space inside the CIDSystemInfo "
+            "dictionary. No -coverage on the runs that involve the Producer (TLC's cost model inlines its call graph); "
+            "MC_CMap_cov.cfg is the coverage run.",
     "design_ref": "DESIGN.md section 4 C15",
 }
 
